@@ -265,6 +265,34 @@ Proof. intros Hc z Hz. pose proof (pythagoras_bound x0 x z g (Hc z Hz)) as P.
     with ((dist2 x0 z - (dist2 x0 x + dist2 x z - (g + g))) + dist2 x z) by ring.
   now apply add_nonneg. Qed.
 
+(* from the stopping quantity to the variational inequality itself: at the sweep that ends in s' = step k s_k (k >= 0, s_k the
+   k-th iterate) with error_value e = br s_k s', every feasible z has  <x0 - x', z - x'>  either negative or, squared, at most
+   |p'|^2 * e  — and  e < eps  at a stopping sweep.  (|p'| is a number of the run; no a-priori bound on it is proved.) *)
+Theorem stopped_variational_sq (PA PB : nat -> vec -> vec) (A B : vec -> Prop) :
+  obtuse A PA -> obtuse B PB -> forall x0 k z, A z -> B z ->
+  let s := iter F frz PA PB k (init F frz x0) in
+  let s' := step F frz PA PB k s in
+  let c := dot n (vsub x0 (sx s')) (vsub z (sx s')) in
+  0 <= c -> c * c <= dot n (sp s') (sp s') * br F n s s'.
+Proof. intros oA oB x0 k z Az Bz s s' c Hc.
+  pose proof (certificate PA PB A B oA oB x0 (S k) z ltac:(lia) Az Bz) as Hg. cbn [C05_Dykstra.iter] in Hg. fold s s' c in Hg.
+  pose proof (gap_le_br PA PB k s) as Hb. fold s' in Hb.
+  set (g := gap F n s') in *.
+  assert (H0g : 0 <= g) by (apply (k_trans F _ _ _ Hc Hg)).
+  apply (k_trans F _ (g * g)); [|exact Hb].
+  apply (k_trans F _ (c * g)); [now apply mul_le_compat_nonneg|].
+  replace (c * g) with (g * c) by ring. now apply mul_le_compat_nonneg. Qed.
+
+Corollary stopped_variational_eps (PA PB : nat -> vec -> vec) (A B : vec -> Prop) eps :
+  obtuse A PA -> obtuse B PB -> forall x0 k z, A z -> B z ->
+  let s := iter F frz PA PB k (init F frz x0) in
+  let s' := step F frz PA PB k s in
+  let c := dot n (vsub x0 (sx s')) (vsub z (sx s')) in
+  br F n s s' <= eps -> 0 <= c -> c * c <= dot n (sp s') (sp s') * eps.
+Proof. intros oA oB x0 k z Az Bz s s' c He Hc.
+  apply (k_trans F _ _ _ (stopped_variational_sq PA PB A B oA oB x0 k z Az Bz Hc)).
+  apply mul_le_compat_nonneg; [|exact He]. unfold dot. apply sumn_nonneg; intros. apply sqr_nonneg. Qed.
+
 Corollary variational_is_nearest (C : vec -> Prop) (x0 x : vec) :
   (forall z, C z -> dot n (vsub x0 x) (vsub z x) <= 0) ->
   forall z, C z -> dist2 x0 x <= dist2 x0 z.
@@ -420,6 +448,33 @@ Proof. intros Hm. destruct max_iter as [|m]; [lia|]. cbn [run_dykstra].
     cbn in g2. unfold stops_at, errf in g2. cbn in g2. discriminate.
   - apply g. exact H.
   - intros j Hj. apply i; lia. Qed.
+
+(* ------------------------------------------------------------------ capping the fuel (what the executed op c05.run relies on) *)
+Lemma loop_unstopped_steps (PA PB : nat -> vec -> vec) eps fuel : forall k s h e,
+  r_stopped (loop F n frz PA PB eps fuel k s h e) = false -> r_steps (loop F n frz PA PB eps fuel k s h e) = (k + fuel)%nat.
+Proof. induction fuel as [|f IH]; intros k s h e H; cbn [loop] in *; [cbn; lia|].
+  destruct (match (if (1 <=? k)%nat then Some (br F n s (step F frz PA PB k s)) else None) with
+            | Some v => ltb F v eps | None => false end); [cbn in H; discriminate|].
+  rewrite (IH _ _ _ _ H). lia. Qed.
+
+(* a run made with the fuel capped at S K that used at most K sweeps is THE run with the full fuel: either the cap was not
+   active, or the loop left through `break`, and then the remaining fuel is irrelevant *)
+Theorem run_fuel_cap (PA PB : nat -> vec -> vec) eps max_iter K x0 r :
+  run_dykstra F n frz PA PB eps (Nat.min max_iter (S K)) x0 = Some r -> (r_steps r <= K)%nat ->
+  run_dykstra F n frz PA PB eps max_iter x0 = Some r.
+Proof. intros Hr Hs. destruct (Nat.le_gt_cases max_iter (S K)) as [Hle|Hgt].
+  - now rewrite (Nat.min_l _ _ Hle) in Hr.
+  - rewrite (Nat.min_r _ _ (Nat.lt_le_incl _ _ Hgt)) in Hr.
+    change (run_dykstra F n frz PA PB eps (S K) x0)
+      with (Some (loop F n frz PA PB eps (S K) 0 (init F frz x0) [init F frz x0] [])) in Hr.
+    remember (loop F n frz PA PB eps (S K) 0 (init F frz x0) [init F frz x0] []) as L eqn:EL.
+    assert (Er : L = r) by congruence. subst r. clear Hr.
+    destruct max_iter as [|m]; [lia|].
+    change (run_dykstra F n frz PA PB eps (S m) x0)
+      with (Some (loop F n frz PA PB eps (S m) 0 (init F frz x0) [init F frz x0] [])). f_equal. rewrite EL.
+    apply loop_fuel_mono; [lia|]. rewrite <- EL.
+    destruct (r_stopped L) eqn:E; [reflexivity|]. exfalso. rewrite EL in E.
+    pose proof (loop_unstopped_steps PA PB eps (S K) 0 _ _ _ E) as T. rewrite <- EL in T. lia. Qed.
 
 (* already-physical input: every iterate equals the input, p = q = 0, and the loop stops after exactly two sweeps *)
 Theorem run_fixed_point (PA PB : nat -> vec -> vec) eps max_iter x0 :
